@@ -65,7 +65,7 @@ static void reb_collision_update_max_radii(struct reb_simulation* const r){
     r->max_radius1 = max_radius1;
 }
 
-void reb_collision_search(struct reb_simulation* const r){
+int reb_collision_search(struct reb_simulation* const r){
     int N = r->N - r->N_var;
     int Ninner = N;
     int* mercurius_map = NULL;
@@ -117,7 +117,7 @@ void reb_collision_search(struct reb_simulation* const r){
                 // Loop over all particles
                 for (int i=0;i<N;i++){
 #ifndef OPENMP
-                    if (reb_sigint > 1) return;
+                    if (reb_sigint > 1) return 0;
 #endif // OPENMP
                     int ip = i;
                     if (mercurius_map){
@@ -191,7 +191,7 @@ void reb_collision_search(struct reb_simulation* const r){
                 // Loop over all particles
                 for (int i=0;i<N;i++){
 #ifndef OPENMP
-                    if (reb_sigint > 1) return;
+                    if (reb_sigint > 1) return 0;
 #endif // OPENMP
                     int ip = i;
                     if (trace_map){
@@ -284,7 +284,7 @@ void reb_collision_search(struct reb_simulation* const r){
 #pragma omp parallel for schedule(guided)
             for (int i=0;i<N;i++){
 #ifndef OPENMP
-                if (reb_sigint > 1) return;
+                if (reb_sigint > 1) return 0;
 #endif // OPENMP
                 struct reb_particle p1 = particles[i];
                 struct reb_collision collision_nearest;
@@ -344,7 +344,7 @@ void reb_collision_search(struct reb_simulation* const r){
 #pragma omp parallel for schedule(guided)
             for (int i=0;i<N;i++){
 #ifndef OPENMP
-                if (reb_sigint > 1) return;
+                if (reb_sigint > 1) return 0;
 #endif // OPENMP
                 struct reb_particle p1 = particles[i];
                 struct reb_collision collision_nearest;
@@ -508,6 +508,7 @@ void reb_collision_search(struct reb_simulation* const r){
             }
         }
     }
+    return collisions_N; // Number of collisions found (and handed to the resolve function) in this search.
 }
 
 /**
